@@ -1,4 +1,5 @@
-import OntVerif.Proofs.KV
+import OntVerif.Proofs.KVLive
+import OntVerif.Gen.StateAlias
 /-!
 # C08 — EVM snapshot revert restores exactly the observable state
 
@@ -12,6 +13,7 @@ stack depth stays above `i` (`StaysAbove`). Any nesting of snapshots, reverts an
 -/
 namespace OntVerif.Props.C08
 open OntVerif.Util OntVerif.Model.KV OntVerif.Model.KV.StateDB OntVerif.Proofs.KV OntVerif.Proofs.KV.SDB
+open OntVerif.Model.KVLive OntVerif.Proofs.KVLive
 
 /-- **Main theorem.** Take a snapshot in ANY state `s1` (it gets id `i = depth`). Run ANY history of mutations and nested
 snapshot / revert / discard operations during which snapshot `i` stays alive. Then `RevertToSnapshot(i)` succeeds and
@@ -69,6 +71,78 @@ theorem C08_discard_panics_iff (s : StateDB) (i : Int) :
     by_cases h : i.toNat + 1 > s.snaps.length
     · simp [h]; omega
     · simp [h]; omega
+
+/-! ### The Go aliasing facts the value-based model relies on, regenerated from the source on every run (`Gen/StateAlias.lean`)
+
+The model copies values; Go shares memory unless the code copies. `C08_revert` is a statement about the Go code only under
+these facts (a refactor that drops one of the copies changes the generated definitions and these theorems stop checking):
+(A1) `MemDB.DeepClone` builds a MemDB whose slice fields are new backing arrays and sets every field; the only things two
+MemDBs can share are the comparer and the random source of the skip-list heights. (A2) `Snapshot()` stores that clone, a map
+freshly `make`d and filled from `Suicided`, `len(logs)` and `refund`; a snapshot holds no slice. (A3) `RevertToSnapshot`
+assigns the four parts back and cuts the stack. (A4) `logs` is only appended to (`AddLog`) or cut (`RevertToSnapshot`), so the
+first `logsSize` elements are never overwritten while a snapshot that recorded `logsSize` is alive; the `CacheDB.memdb` pointer
+is only replaced by `RevertToSnapshot`; the live `Suicided` map is only written by `Suicide`, replaced by `RevertToSnapshot`
+(with the popped snapshot's own map) and by `CommitToCacheDB`. -/
+
+open OntVerif.Gen.StateAlias in
+theorem C08_alias_deepclone :
+    deepCloneSlicesFresh = true ∧ deepCloneSetsAllFields = true ∧
+    memDBRefFields = [("cmp", "comparer.BasicComparer"), ("rnd", "*rand.Rand"), ("kvData", "[]byte"), ("nodeData", "[]int")] := by
+  decide
+
+open OntVerif.Gen.StateAlias in
+theorem C08_alias_snapshot :
+    snapshotMapFreshCopy = true ∧ snapshotMemdbCloned = true ∧
+    snapshotStruct = [("changes", "*overlaydb.MemDB"), ("suicided", "map[common.Address]bool"), ("logsSize", "int"), ("refund", "uint64")] ∧
+    snapshotLiteral = [("changes", "changes"), ("suicided", "suicided"), ("logsSize", "len(self.logs)"), ("refund", "self.refund")] := by
+  decide
+
+open OntVerif.Gen.StateAlias in
+theorem C08_alias_revert :
+    revertAssignments = ["self.snapshots = self.snapshots[:idx]", "self.cacheDB.memdb = sn.changes", "self.Suicided = sn.suicided",
+      "self.refund = sn.refund", "self.logs = self.logs[:sn.logsSize]"] := by
+  decide
+
+open OntVerif.Gen.StateAlias in
+theorem C08_alias_writers :
+    logsWrites = [("AddLog", "self.logs = append(self.logs, log)"), ("RevertToSnapshot", "self.logs = self.logs[:sn.logsSize]")] ∧
+    memdbPointerWrites = [("RevertToSnapshot", "self.cacheDB.memdb = sn.changes")] ∧
+    suicidedWrites = [("CommitToCacheDB", "self.Suicided = make(map[common.Address]bool)"), ("RevertToSnapshot", "self.Suicided = sn.suicided"),
+      ("Suicide", "self.Suicided[addr] = true")] := by
+  decide
+
+/-! ### `StateDB.Commit` / `CommitToCacheDB` (`Model/KVLive.lean`) -/
+
+/-- a commit between a snapshot and its revert: the snapshot stack is cut to length 0, so EVERY later `RevertToSnapshot` /
+`DiscardSnapshot` of an id handed out before is rejected (panics) — a commit cannot be followed by a revert that restores
+something else than promised; it simply ends the lifetime of all snapshots (`StaysAbove` fails at that point). Snapshots taken
+afterwards are covered by `C08_revert`, which starts from any state. There is no `Finalise`/`IntermediateRoot` in this StateDB. -/
+theorem C08_commit_kills_snapshots (s : StateDB) (i : Int) :
+    (commit s).snaps = [] ∧ (commitToCacheDB s).snaps = [] ∧
+    (commit s).revert i = none ∧ (commit s).discard i = none ∧
+    (commitToCacheDB s).revert i = none ∧ (commitToCacheDB s).discard i = none := by
+  refine ⟨rfl, rfl, ?_, ?_, ?_, ?_⟩
+  · exact (C08_revert_panics_iff _ i).mpr (by rw [(commit_snaps s).1]; simp <;> omega)
+  · exact (C08_discard_panics_iff _ i).mpr (by rw [(commit_snaps s).1]; simp <;> omega)
+  · exact (C08_revert_panics_iff _ i).mpr (by rw [(commitToCacheDB_snaps s).1]; simp <;> omega)
+  · exact (C08_discard_panics_iff _ i).mpr (by rw [(commitToCacheDB_snaps s).1]; simp <;> omega)
+
+/-- what `CommitToCacheDB` does to the self-destructed accounts: no account record, no code hash, no storage slot left (for ANY
+slot, whatever layer it lived in), the mark is cleared; the lower layers are not written -/
+theorem C08_commit_destroys (s : StateDB) (inv : Inv s.cache) (a : Bytes) (ha : a ∈ s.suicided) :
+    (commitToCacheDB s).getNonce a = 0 ∧ (commitToCacheDB s).getCodeHash a = zeroHash ∧
+    (∀ slot, (commitToCacheDB s).getState a slot = zeroHash) ∧ (commitToCacheDB s).hasSuicided a = false ∧
+    (commitToCacheDB s).cache.backend = s.cache.backend := by
+  obtain ⟨_, bk, h⟩ := kill_fold s.suicided s.cache inv [] (by simp)
+  obtain ⟨h1, h2⟩ := h a (Or.inr ha)
+  have hacct : (commitToCacheDB s).getEthAccount a = ⟨0, zeroHash⟩ := by
+    have : (commitToCacheDB s).cache.get stEthAccount a = [] := h2
+    simp [StateDB.getEthAccount, this]
+  refine ⟨by simp [StateDB.getNonce, hacct], by simp [StateDB.getCodeHash, hacct], ?_, rfl, bk⟩
+  intro slot
+  have : (commitToCacheDB s).cache.get stStorage (a ++ slot) = [] := h1 (a ++ slot) (List.prefix_append a slot)
+  simp only [StateDB.getState, this]
+  decide
 
 /-! ### Non-vacuity: a nested history (snapshot 0; mutations; snapshot 1; mutation; revert 1; log; snapshot 1 again;
 discard 1) keeps snapshot 0 alive, and the revert restores a state with a non-empty memdb, log and refund -/
